@@ -2089,11 +2089,13 @@ namespace awkward {
       return out.get()->simplify_uniontype(true, true);
     }
     else {
-      return std::make_shared<IndexedArrayOf<T, ISOPTION>>(
-        Identities::none(),
-        parameters_,
-        index_,
-        content_.get()->fillna(value));
+      // the filled content may itself have become an indexed or option-type
+      // node (a union that simplified): never leave one directly inside another
+      IndexedArrayOf<T, ISOPTION> out(Identities::none(),
+                                      parameters_,
+                                      index_,
+                                      content_.get()->fillna(value));
+      return out.simplify_optiontype();
     }
   }
 
